@@ -99,4 +99,154 @@ Proof.
     destruct (h_sp o); ring.
   - destruct (h_ridge o); ring.
 Qed.
+
+Lemma is0_R x : is0 Rops x = true <-> x = 0.
+Proof.
+  unfold is0, feqb. cbn [fleb f0 Rops]. rewrite andb_true_iff, !Rleb_true. split; [intros []; lra | intros ->; lra].
+Qed.
+Lemma is0_R_false x : is0 Rops x = false <-> x <> 0.
+Proof. rewrite <- is0_R. destruct (is0 Rops x); split; congruence. Qed.
+
+Notation step := (hals_step Rops UtM UtU n o).
+Notation newrow := (hals_newrow Rops UtM UtU n o).
+Hypothesis NZ : h_nz o = false.
+
+Lemma step_zero V k : G k k = 0 -> step V k = V.
+Proof. intros H. unfold hals_step. apply is0_R in H. unfold G, Gf in H. now rewrite H. Qed.
+Lemma step_nonzero V k : G k k <> 0 -> step V k = set_nth k (newrow V k) V.
+Proof. intros H. unfold hals_step. apply is0_R_false in H. unfold G, Gf in H. rewrite H, NZ. reflexivity. Qed.
+
+Lemma step_wfm V k : wfm r n V -> wfm r n (step V k).
+Proof.
+  intros W. destruct (Req_dec (G k k) 0) as [E|E]; [now rewrite step_zero | rewrite step_nonzero by exact E].
+  apply wfm_set_nth; [exact W | apply length_newrow].
+Qed.
+Lemma step_other V k i j : i <> k -> Mget (step V k) i j = Mget V i j.
+Proof.
+  intros H. destruct (Req_dec (G k k) 0) as [E|E]; [now rewrite step_zero | rewrite step_nonzero by exact E].
+  now apply mget_set_other.
+Qed.
+Lemma step_same V k j : wfm r n V -> (k < r)%nat -> (j < n)%nat -> G k k <> 0 ->
+  Mget (step V k) k j = hals_new r G (bf UtM j) l1 l2 eps (colf V j) k.
+Proof.
+  intros W Hk Hj E. rewrite step_nonzero by exact E. rewrite mget_set_same by (destruct W as [-> _]; exact Hk).
+  now apply nth_newrow.
+Qed.
+(* column view: a step replaces coordinate k of every column by the engine's update *)
+Lemma step_col V k j i : wfm r n V -> (k < r)%nat -> (j < n)%nat -> G k k <> 0 ->
+  colf (step V k) j i = updv (colf V j) k (hals_new r G (bf UtM j) l1 l2 eps (colf V j) k) i.
+Proof.
+  intros W Hk Hj E. unfold updv, colf. destruct (Nat.eq_dec i k) as [->|Hne].
+  - now apply step_same.
+  - now apply step_other.
+Qed.
+
+Lemma hals_new_ge (b : nat -> R) v k : eps <= hals_new r G b l1 l2 eps v k.
+Proof. unfold hals_new. cbv zeta. destruct (Rle_dec _ _); lra. Qed.
+
+Definition rowge (V : mat) (i : nat) : Prop := forall j, (j < n)%nat -> eps <= Mget V i j.
+Notation foldp := (fold_left (hals_step Rops UtM UtU n o)).
+
+Lemma fold_wfm ks : forall V, wfm r n V -> wfm r n (foldp ks V).
+Proof. induction ks; simpl; intros V W; [exact W | apply IHks, step_wfm, W]. Qed.
+
+Lemma fold_row_other ks : forall V i j, ~ In i ks -> Mget (foldp ks V) i j = Mget V i j.
+Proof.
+  induction ks as [|k ks IH]; simpl; intros V i j H; [reflexivity|].
+  rewrite IH by tauto. apply step_other. intros ->. tauto.
+Qed.
+
+(* (i) rows that are updated, and rows that were feasible, are >= eps afterwards *)
+Lemma fold_ge ks : forall V i, wfm r n V -> (forall k, In k ks -> (k < r)%nat) -> (i < r)%nat ->
+  (rowge V i \/ (In i ks /\ G i i <> 0)) -> rowge (foldp ks V) i.
+Proof.
+  induction ks as [|k ks IH]; simpl; intros V i W Hks Hi H.
+  - destruct H as [H|[[] _]]. exact H.
+  - apply IH; [now apply step_wfm | intros; apply Hks; tauto | exact Hi |].
+    destruct (Nat.eq_dec i k) as [->|Hne].
+    + destruct (Req_dec (G k k) 0) as [E|E].
+      * rewrite step_zero by exact E. destruct H as [H|[[_|H] H2]]; [now left | contradiction | now right].
+      * left. intros j Hj. rewrite step_same by assumption. apply hals_new_ge.
+    + destruct H as [H|[[H|H] H2]]; [left | congruence | now right].
+      intros j Hj. rewrite step_other by exact Hne. now apply H.
+Qed.
+
+Section Objective.
+Hypothesis Gsym : forall i j, G i j = G j i.
+Hypothesis Hden : forall k, (k < r)%nat -> G k k <> 0 -> 0 < G k k + 2 * l2.
+Notation obj j := (qp_f r G (bf UtM j) l1 l2).
+
+Lemma qp_f_ext (b : nat -> R) v w : (forall i, (i < r)%nat -> v i = w i) -> qp_f r G b l1 l2 v = qp_f r G b l1 l2 w.
+Proof.
+  intros H. unfold qp_f, quad. f_equal; [f_equal; [f_equal|]|].
+  - f_equal. apply rsum_ext; intros i Hi. apply rsum_ext; intros j Hj. now rewrite (H i Hi), (H j Hj).
+  - apply rsum_ext; intros i Hi. now rewrite H.
+  - f_equal. apply rsum_ext; intros i Hi. now apply H.
+  - f_equal. apply rsum_ext; intros i Hi. now rewrite H.
+Qed.
+
+(* (ii) one row update from a feasible V does not increase the objective of any column *)
+Lemma step_mono V k j : wfm r n V -> (k < r)%nat -> (j < n)%nat -> eps <= Mget V k j ->
+  obj j (colf (step V k) j) <= obj j (colf V j).
+Proof.
+  intros W Hk Hj Hf. destruct (Req_dec (G k k) 0) as [E|E]; [rewrite step_zero by exact E; lra|].
+  rewrite (qp_f_ext _ _ (updv (colf V j) k (hals_new r G (bf UtM j) l1 l2 eps (colf V j) k))) by (intros; now apply step_col).
+  rewrite (qp_f_ext _ (colf V j) (updv (colf V j) k (colf V j k))).
+  2:{ intros i _. unfold updv. destruct (Nat.eq_dec i k) as [->|]; reflexivity. }
+  apply hals_row_exact; [exact Gsym | exact Hk | now apply Hden | exact Hf].
+Qed.
+
+Lemma fold_mono ks : forall V j, wfm r n V -> (forall k, In k ks -> (k < r)%nat) -> (j < n)%nat ->
+  (forall i, (i < r)%nat -> rowge V i) -> obj j (colf (foldp ks V) j) <= obj j (colf V j).
+Proof.
+  induction ks as [|k ks IH]; simpl; intros V j W Hks Hj Hf; [lra|].
+  eapply Rle_trans; [apply IH | apply step_mono]; auto.
+  - now apply step_wfm.
+  - intros i Hi. apply (fold_ge [k]); [exact W | intros ? [<-|[]]; auto | exact Hi | left; now apply Hf].
+  - apply Hf; auto.
+Qed.
+End Objective.
+
+(* (iii) a pass that returns its input is a fixed point of every row update *)
+Lemma fold_fixed ks : forall V, NoDup ks -> (forall k, In k ks -> (k < r)%nat) -> wfm r n V ->
+  foldp ks V = V -> forall k, In k ks -> step V k = V.
+Proof.
+  induction ks as [|k ks IH]; simpl; intros V ND Hks W Hfix q Hq; [contradiction|].
+  inversion ND as [|? ? Hnin ND']; subst.
+  assert (E : step V k = V).
+  { apply (wfm_ext r n); [now apply step_wfm | exact W |]. intros i j Hi Hj.
+    destruct (Nat.eq_dec i k) as [->|Hne]; [|now apply step_other].
+    rewrite <- (fold_row_other ks (step V k) k j Hnin). now rewrite Hfix. }
+  destruct Hq as [<-|Hq]; [exact E|]. rewrite E in Hfix. apply IH; auto.
+Qed.
 End HalsFacts.
+
+(* per coordinate: hals_new = v_k  <=>  complementarity at the bound eps *)
+Lemma hals_new_fixed_kkt n (G : nat -> nat -> R) b l1 l2 eps (v : nat -> R) k :
+  0 < G k k + 2 * l2 -> hals_new n G b l1 l2 eps v k = v k ->
+  eps <= v k /\ 0 <= qp_grad n G b l1 l2 v k /\ (v k - eps) * qp_grad n G b l1 l2 v k = 0.
+Proof.
+  intros Ha. unfold hals_new. cbv zeta. set (a := G k k + 2 * l2) in *. set (g := qp_grad n G b l1 l2 v k).
+  assert (Hq : b k - rsum n (fun j => G k j * v j) + G k k * v k - l1 = a * v k - g) by (unfold g, qp_grad, a; ring).
+  rewrite Hq. assert (Hs : (a * v k - g) / a = v k - g / a) by (field; lra). rewrite Hs.
+  destruct (Rle_dec eps (v k - g / a)) as [H|H]; intros E.
+  - assert (g / a = 0) by lra. assert (g = 0). { assert (g = g / a * a) by (field; lra). rewrite H0 in H1. lra. }
+    rewrite H1. split; [lra | split; [lra | ring]].
+  - assert (0 < g / a) by lra. assert (0 < g). { replace g with (g / a * a) by (field; lra). apply Rmult_lt_0_compat; lra. }
+    rewrite <- E. split; [lra | split; [lra | ring]].
+Qed.
+(* conversely a KKT point is left unchanged *)
+Lemma kkt_hals_new_fixed n (G : nat -> nat -> R) b l1 l2 eps (v : nat -> R) k :
+  0 < G k k + 2 * l2 -> eps <= v k -> 0 <= qp_grad n G b l1 l2 v k -> (v k - eps) * qp_grad n G b l1 l2 v k = 0 ->
+  hals_new n G b l1 l2 eps v k = v k.
+Proof.
+  intros Ha Hv Hg Hc. unfold hals_new. cbv zeta. set (a := G k k + 2 * l2) in *. set (g := qp_grad n G b l1 l2 v k) in *.
+  assert (Hq : b k - rsum n (fun j => G k j * v j) + G k k * v k - l1 = a * v k - g) by (unfold g, qp_grad, a; ring).
+  rewrite Hq. assert (Hs : (a * v k - g) / a = v k - g / a) by (field; lra). rewrite Hs.
+  apply Rmult_integral in Hc.
+  destruct (Rle_dec eps (v k - g / a)) as [H|H].
+  - destruct Hc as [Hc|Hc]; [|rewrite Hc; unfold Rdiv; ring].
+    assert (0 <= g / a) by (apply Rmult_le_pos; [lra | left; apply Rinv_0_lt_compat; lra]). 
+    assert (g / a = 0) by lra. lra.
+  - destruct Hc as [Hc|Hc]; [lra|]. exfalso. apply H. rewrite Hc. unfold Rdiv. lra.
+Qed.
